@@ -1,6 +1,7 @@
 package props
 
 import (
+	"math"
 	"bytes"
 	"fmt"
 	"os"
@@ -107,6 +108,10 @@ func c02Gen(r *core.Rand, i int) c02case {
 		"{{ pm | json }}|{{ ps | json }}|{{ pps | inspect }}|{{ mps | json }}|{{ pst | json }}", "{{ ps | plus: 1 }}", "{% include pps %}", "{% for x in (1..pm) %}{% endfor %}", "{{ 'abc' | slice: mps }}", "{{ 1 | divided_by: ps }}",
 		// output that is not valid UTF-8 (a string value is emitted exactly; url_decode yields whatever bytes its input spells): the same bytes from every entry point
 		"{{ badutf }}|{{ '%ff%c3%28%f0%9f' | url_decode }}|{{ badutf | append: 'x' | size }}|{{ badutf | upcase }}", "{% capture c %}{{ '%e9' | url_decode }}{% endcapture %}[{{ c }}]{{ badutf | slice: 0, 2 }}",
+		// a map with a NaN key among ordinary ones (the NaN entry is left out, the others keep their order); fixed arrays of pointers
+		"{% for kv in nanmap %}{{ kv[0] }}={{ kv[1] }};{% endfor %}|{{ nanmap | join: ',' }}|{{ nanmap | first }}{{ nanmap | last }}|{% tablerow kv in nanany %}{{ kv[1] }}{% endtablerow %}", "{{ pa }}|{{ mpa }}|{{ 'x' | append: pa }}|{{ mpa | json }}|{{ pa | join: '+' }}|{{ mpa.k | first }}",
+		// tag-like text in a raw body: where it ends is the same on every engine, whichever other engines scanned before
+		"{% raw %}{%a {% endraw %}|{% comment %}{{x {% endcomment %}|{% raw %}{{ {% endraw %} }}",
 		// application tags that write: what they write belongs to one render
 		"{% xbump hits %}{% xbump hits %}hits={{ hits }} {% xbump n %}n={{ n }}{% xset seen = hits %}{{ seen }}", "{% for kv in flat %}{% xbump count %}{% endfor %}{{ count }}{% xbump flat %}{{ flat }}",
 		"{{ anyn | join: ',' }}|{{ anys | first | last }}|{% tablerow kv in anye %}{{ kv[1] }}{% endtablerow %}|{{ bigkeys | join: ',' }}|{% for kv in bigkeys %}{{ kv[0] }};{% endfor %}",
@@ -187,6 +192,13 @@ func (cs c02case) bind(r *core.Rand) map[string]any {
 	pi := func(i int) *int { return &i }
 	ps := func(s string) *string { return &s }
 	b["badutf"] = "ok\xff\xc3(\xf0\x9f end"
+	nanmap, nanany := map[float64]string{math.NaN(): "nan"}, map[any]any{math.NaN(): "nan", float32(math.NaN()): "nan32"}
+	for _, j := range r.Perm(9) {
+		nanmap[float64(j)+0.5] = fmt.Sprint("v", j)
+		nanany[j] = fmt.Sprint("w", j)
+	}
+	b["nanmap"], b["nanany"] = nanmap, nanany
+	b["pa"], b["mpa"] = [2]*int{pi(4), pi(5)}, map[string][2]*string{"k": {ps("p"), ps("q")}}
 	b["pm"] = map[string]*int{"a": pi(1), "b": pi(2), "n": nil}
 	b["ps"] = []*string{ps("x"), ps("y")}
 	b["pps"] = [][]*int{{pi(1), pi(2)}, {pi(3)}}
